@@ -540,13 +540,22 @@ pub fn replay_case(case: &Value, mat: Mat) -> Option<Value> {
     if mat.unit == 600 && buf_floor != 1 {
         return None; // (this materialisation exists for the instances about its class of units)
     }
+    // (bgrot build) histories with a directory in the way of an archive: the rotation fails on its own thread and nobody is
+    // told.  What the window then looks like is not Rolling.tla's subject (it has the roller's error returned), but one
+    // thing holds whatever the roller did: the newest acknowledged record is in a file - retention discards whole OLDEST
+    // files only.  These histories run with that one check.
+    let mut bg_lenient = false;
     if cfg!(feature = "bgrot") {
         // fault hooks are per thread and would not reach the rotation thread; errors of a background rotation are
-        // not returned to the appender: only unperturbed histories are replayed in this build
-        if case["ops"].as_array().unwrap().iter().any(|o| matches!(o["op"].as_str(), Some("arm") | Some("obstruct")) || matches!(o["res"].as_str(), Some("crash") | Some("encfail"))) {
+        // not returned to the appender: only unperturbed histories are replayed step by step in this build
+        let ops = case["ops"].as_array().unwrap();
+        if ops.iter().any(|o| matches!(o["op"].as_str(), Some("arm")) || matches!(o["res"].as_str(), Some("crash") | Some("encfail"))
+                              || (o["op"] == "obstruct" && o["kind"] != "dir")) {
             return None;
         }
+        bg_lenient = ops.iter().any(|o| o["op"] == "obstruct");
     }
+    let mut last_acked: Option<String> = None;
     // instances whose final rotation step compresses speak about .gz patterns only
     if p["gz"].as_bool().unwrap_or(false) && !mat.gz {
         return None;
@@ -876,6 +885,16 @@ pub fn replay_case(case: &Value, mat: Mat) -> Option<Value> {
                     Ok(Err(_)) => "err",
                     Err(_) => "panic",
                 };
+                if bg_lenient {
+                    if got_res == "panic" {
+                        return fail(si, "append panicked", json!(r.err()));
+                    }
+                    if got_res == "ok" && sz > 0 {
+                        last_acked = Some(msg.clone());
+                    }
+                    decisions.lock().unwrap().clear();
+                    continue;
+                }
                 if got_res != res {
                     let detail = match r {
                         Ok(Err(e)) => e.to_string(),
@@ -910,6 +929,24 @@ pub fn replay_case(case: &Value, mat: Mat) -> Option<Value> {
     }
     drop(appender.take());
     log4rs::verif::set_thread_callback(None);
+    if let (true, Some(m)) = (bg_lenient, last_acked) {
+        // (a rotation thread that is about to fail has done so long before this)
+        std::thread::sleep(std::time::Duration::from_millis(20));
+        let mut files = snapshot(scratch.path(), true, false);
+        // (in one materialisation the active file lives on another file system, outside the scratch directory)
+        if let Some(d) = world.act().parent() {
+            if !d.starts_with(scratch.path()) {
+                for (k, v) in snapshot(d, true, false) {
+                    files.insert(format!("<active dir>/{}", k), v);
+                }
+            }
+        }
+        let needle = m.as_bytes();
+        if !files.values().any(|b| b.windows(needle.len()).any(|w| w == needle)) {
+            return fail(ops.len() - 1, "the newest acknowledged record is in no file (a background rotation failed)",
+                        json!({"record": m, "files": files.iter().map(|(k, v)| (k.clone(), v.len())).collect::<Vec<_>>()}));
+        }
+    }
     None
 }
 
